@@ -241,6 +241,98 @@ func Structured(thorough bool) []Lazy {
 		for _, typ := range []string{"create", "update", "recover", "deactivate"} {
 			rq := reqs[typ]
 			add("op", typ+"/"+kt+"/valid", ops.Bytes(rq.m))
+			// every hash of the request and of its signed payload in turn replaced by a well-formed multihash of an algorithm that the
+			// multihash tables know but the library does not compute (sha1, sha3-*, keccak-256, blake2b-256) and by sha2-512: what a
+			// node whose algorithm list names such a code is sent
+			{
+				foreign := []struct {
+					code uint64
+					size int
+				}{{0x11, 20}, {0x13, 64}, {0x14, 64}, {0x15, 48}, {0x16, 32}, {0x17, 28}, {0x1b, 32}, {0xb220, 32}}
+				var walk func(v any, visit func(set func(string), cur string))
+				walk = func(v any, visit func(set func(string), cur string)) {
+					switch t := v.(type) {
+					case map[string]any:
+						for k, c := range t {
+							if sv, ok := c.(string); ok {
+								k := k
+								visit(func(n string) { t[k] = n }, sv)
+							} else {
+								walk(c, visit)
+							}
+						}
+					case []any:
+						for _, c := range t {
+							walk(c, visit)
+						}
+					}
+				}
+				isHash := func(sv string) bool { c, _, err := mh.Decode(sv); return err == nil && c == 18 }
+				fi := 0
+				// outer members
+				var outer any
+				_ = json.Unmarshal(ops.Bytes(rq.m), &outer)
+				var slots []string
+				walk(outer, func(_ func(string), cur string) {
+					if isHash(cur) {
+						slots = append(slots, cur)
+					}
+				})
+				sort.Strings(slots)
+				for _, slot := range slots {
+					for _, f := range foreign {
+						slot, f := slot, f
+						addLazy("op", fmt.Sprintf("%s/%s/foreign-hash-%d", typ, kt, fi), func() []byte {
+							var m any
+							_ = json.Unmarshal(ops.Bytes(rq.m), &m)
+							walk(m, func(set func(string), cur string) {
+								if cur == slot {
+									set(mh.Enc(mh.Raw(f.code, make([]byte, f.size))))
+								}
+							})
+							b, _ := jcs.CanonGo(m)
+							return b
+						})
+						fi++
+					}
+				}
+				// members of the signed payload (re-signed)
+				if rq.signer != nil {
+					parts := strings.Split(rq.m["signedData"].(string), ".")
+					pb, _ := enc.DecodeString(parts[1])
+					var payload any
+					_ = json.Unmarshal(pb, &payload)
+					var pslots []string
+					walk(payload, func(_ func(string), cur string) {
+						if isHash(cur) {
+							pslots = append(pslots, cur)
+						}
+					})
+					sort.Strings(pslots)
+					for _, slot := range pslots {
+						for _, f := range foreign {
+							slot, f, rq := slot, f, rq
+							addLazy("op", fmt.Sprintf("%s/%s/foreign-hash-%d", typ, kt, fi), func() []byte {
+								var pl any
+								_ = json.Unmarshal(pb, &pl)
+								walk(pl, func(set func(string), cur string) {
+									if cur == slot {
+										set(mh.Enc(mh.Raw(f.code, make([]byte, f.size))))
+									}
+								})
+								cb, _ := jcs.CanonGo(pl)
+								m2 := M{}
+								for k, v := range rq.m {
+									m2[k] = v
+								}
+								m2["signedData"] = rq.signer.SignCompact(rq.signer.Header(), cb)
+								return ops.Bytes(m2)
+							})
+							fi++
+						}
+					}
+				}
+			}
 			// corruptions of the outer request, re-sealed
 			each(rq.m, func(i int, text func() string) {
 				signer := rq.signer
